@@ -443,6 +443,8 @@ type DstScript struct {
 	// ShapeSess restricts Shape to one session number (0 = every session).
 	ShapeSess int
 	CallErr   map[string]string
+	// OpenLatencyUs: time the plugin's Open takes (0 = none).
+	OpenLatencyUs int `json:",omitempty"`
 }
 
 type DstState struct {
@@ -536,6 +538,10 @@ func (s *dstSession) Configure(ctx context.Context, _ pconnector.DestinationConf
 func (s *dstSession) Open(ctx context.Context, _ pconnector.DestinationOpenRequest) (pconnector.DestinationOpenResponse, error) {
 	s.st.p.enter()
 	defer s.st.p.leave()
+	if us := s.st.Script.OpenLatencyUs; us > 0 {
+		// a plugin that is slow to come up (it does not watch the context)
+		time.Sleep(time.Duration(us) * time.Microsecond)
+	}
 	err := s.callErr("Open")
 	e := Ev{Kind: KDstOpen, Comp: s.st.ID, Role: s.st.Role, Sess: s.sess}
 	if err != nil {
